@@ -75,7 +75,7 @@ func build(sc *Scenario) *universe {
 	u.refs, u.refBody, u.subjOf, u.art, u.ann = make([]ocispec.Descriptor, sc.NRef+1), make([][]byte, sc.NRef+1), make([]int, sc.NRef+1), make([]string, sc.NRef+1), make([]map[string]string, sc.NRef+1)
 	for r := 1; r <= sc.NRef; r++ {
 		s := (r - 1) % sc.Subjects
-		art := []string{"application/vnd.verif.sig", "application/vnd.verif.sbom"}[r%2]
+		art := []string{"application/vnd.verif.sig", "application/vnd.verif.sbom+json"}[r%2]
 		ann := map[string]string{"verif.ref": fmt.Sprint(r)}
 		m := ocispec.Manifest{MediaType: ocispec.MediaTypeImageManifest, ArtifactType: art, Subject: &u.subjects[s], Annotations: ann,
 			Config: ocispec.DescriptorEmptyJSON, Layers: []ocispec.Descriptor{}}
